@@ -118,6 +118,7 @@ const (
 	ErrorReplaceKeyNotSet                     = 13901
 	ErrorSelectIntoQueryFieldLengthNotMatch   = 14001
 	ErrorSelectIntoQueryTooManyRecords        = 14002
+	ErrorOperationInProgress                  = 14101
 	ErrorIntegerDevidedByZero                 = 30000
 
 	//Incorrect Command Usage
